@@ -11,7 +11,7 @@ from ..aggen import node, snapshot
 
 PROPERTY = 'C12'
 RULE = ('hand-built attack graphs (mirrored edges incl. cycles, self-loops and multi-edges, arbitrary viability / '
-        'necessity labels, suppress tags, defenses with status {0,0.5,1}) with 1-3 attackers (also graphs generated from G_lang x G_model, attackers attached, labelled by the analyser) and a sequence of '
+        'necessity labels, suppress tags, defenses with status {0,0.5,1}) with 1-3 attackers, compromises interleaved with undone compromises (also graphs generated from G_lang x G_model, attackers attached, labelled by the analyser) and a sequence of '
         'compromise batches; exhaustive: all 3-node graphs over a reduced alphabet x all compromise subsets. '
         'Oracle: definitional reference for traversability (every node x attacker), attack surface (as a set; the '
         'returned list must be duplicate-free), defense surface, enabled defenses; after each batch '
@@ -113,6 +113,20 @@ def check_case(case) -> Outcome:
     nb = 0
     for j, batch in case['batches']:
         a = atts[j % len(atts)]
+        if batch and isinstance(batch[0], str):
+            # ['undo', k]: the attacker gives up one of its reached steps; the definitional clauses must keep
+            # holding, and the incremental bookkeeping restarts from a recomputed surface
+            if a.reached_attack_steps:
+                a.undo_compromise(a.reached_attack_steps[batch[1] % len(a.reached_attack_steps)])
+            if len(batch) > 2 and batch[2] % 3:
+                # ... and reaches another step before anything is asked again (the number of reached steps is then
+                # the same as at the previous query)
+                a.compromise(objs[batch[2] % len(objs)])
+            current[id(a)] = list(query.get_attack_surface(a))
+            queries(f'after undo')
+            if out.discrepancies:
+                break
+            continue
         new = []
         for i in batch:
             n = objs[i % len(objs)]
@@ -149,7 +163,10 @@ def cases(draw):
     if not g['attackers']:
         g['attackers'] = [{'name': 'Att0', 'reached': [0]}]
     small = st.integers(0, 11)
-    batches = draw(st.lists(st.tuples(small, st.lists(small, min_size=1, max_size=3)).map(list), max_size=4))
+    batches = draw(st.lists(st.one_of(
+        st.tuples(small, st.lists(small, min_size=1, max_size=3)).map(list),
+        st.tuples(small, st.lists(small, min_size=1, max_size=3)).map(list),
+        st.tuples(small, st.tuples(st.just('undo'), small, small).map(list)).map(list)), max_size=5))
     return {'graph': g, 'batches': batches}
 
 
